@@ -193,8 +193,8 @@ impl<T: RealNumber + ScalarOperand + AddAssign + SubAssign + MulAssign + DivAssi
     }
 
     fn to_row_vector(self) -> Self::RowVector {
-        let vec_size = self.nrows() * self.ncols();
-        self.into_shape(vec_size).unwrap()
+        // `iter` visits the elements in logical (row-major) order whatever the memory layout is
+        Array::from_iter(self.iter().cloned())
     }
 
     fn get(&self, row: usize, col: usize) -> T {
@@ -381,7 +381,8 @@ impl<T: RealNumber + ScalarOperand + AddAssign + SubAssign + MulAssign + DivAssi
     }
 
     fn reshape(&self, nrows: usize, ncols: usize) -> Self {
-        self.clone().into_shape((nrows, ncols)).unwrap()
+        // `iter` visits the elements in logical (row-major) order whatever the memory layout is
+        Array::from_shape_vec((nrows, ncols), self.iter().cloned().collect()).unwrap()
     }
 
     fn copy_from(&mut self, other: &Self) {
